@@ -51,3 +51,12 @@ pub fn all() -> Vec<&'static Monitor> {
         &c20::MONITOR,
     ]
 }
+
+/// Per-document judges (input, configuration, width) for the `shrink` debugging command.
+pub fn judge_for(id: &str) -> Option<fn(&mut crate::run::CaseOut, &[u8], &crate::exec::Cfg, usize)> {
+    match id {
+        "C03" => Some(c03::judge_doc),
+        "C14" => Some(c14::judge_doc),
+        _ => None,
+    }
+}
